@@ -588,10 +588,62 @@ def rule_gimbal(repo, tier):
     return res
 
 
+def _all_reductions(test):
+    """[(node, polarity)]: whole-batch universal reductions (torch.allclose / torch.all / x.all() / torch.equal) in a test, with the polarity under which
+    they occur (True: the test holds when the reduction holds)"""
+    out = []
+
+    def rec(e, pol):
+        if isinstance(e, ast.UnaryOp) and isinstance(e.op, ast.Not):
+            rec(e.operand, not pol)
+        elif isinstance(e, ast.BoolOp):
+            for v in e.values:
+                rec(v, pol)
+        elif isinstance(e, ast.Call):
+            d = dotted(e.func) or ''
+            if d in ('torch.allclose', 'torch.all', 'torch.equal') or (isinstance(e.func, ast.Attribute) and e.func.attr == 'all' and not d.startswith('torch.')):
+                out.append((e, pol))
+        elif isinstance(e, ast.Compare) and len(e.ops) == 1 and isinstance(e.ops[0], (ast.Eq, ast.Is)) and isinstance(e.comparators[0], ast.Constant) \
+                and isinstance(e.comparators[0].value, bool):
+            rec(e.left, pol if e.comparators[0].value else not pol)
+    rec(test, True)
+    return out
+
+
+@guarded
+def rule_quant(repo, tier):
+    """The rejection clause is per input matrix: "inputs that are not (scaled) rotations ... raise".  A batch is rejected when ANY of its items is
+    illegal.  `if not torch.allclose(actual, expected): raise` has that quantifier (not all good = some bad).  `if torch.allclose(x, bad_value): raise`
+    rejects only when EVERY item is illegal: a degenerate matrix batched with a valid one passes (and is then divided by its ~0 scale), and an
+    empty batch - vacuously all - is rejected although nothing in it is illegal."""
+    res = RuleResult('C11.QUANT', 'every rejecting guard of the converters quantifies over the batch as "some item is illegal": whole-batch universal reductions '
+                     '(allclose / all) occur only negated in a raising test, never as `if all items are bad: raise`', floor=4)
+    for q in ('mat2SO3', 'mat2SE3', 'mat2Sim3', 'mat2RxSO3', 'from_matrix'):
+        f = repo.func(CV, q)
+        for n in ast.walk(f.node):
+            if not (isinstance(n, ast.If) and any(isinstance(x, ast.Raise) for st in n.body for x in ast.walk(st))):
+                continue
+            ex = [x for x in ast.walk(n.test) if isinstance(x, ast.Call) and ((dotted(x.func) or '') == 'torch.any' or
+                                                                              (isinstance(x.func, ast.Attribute) and x.func.attr == 'any' and not (dotted(x.func) or '').startswith('torch.')))]
+            for call in ex:
+                res.inst({'function': f.fq, 'guard': src(n.test)[:70], 'quantifier': 'some item'}, (f.fq, src(n.test)[:90], 'any'))
+            for call, pol in _all_reductions(n.test):
+                res.inst({'function': f.fq, 'guard': src(n.test)[:70], 'universal reduction occurs negated': not pol}, (f.fq, src(n.test)[:90]))
+                if pol:
+                    res.add(Finding('C11.QUANT', f, 'the rejecting guard `%s` raises only when EVERY item of the batch is illegal: one degenerate matrix among valid ones '
+                                    'is accepted, and an empty batch (vacuously all) is rejected; the per-item rejection needs `any`' % src(n.test)[:70], node=n))
+    fx = ast.parse('def f(s, R):\n    if torch.allclose(s, torch.zeros_like(s)):\n        raise ValueError\n    if not torch.allclose(R, R.mT):\n        raise ValueError\n'
+                   '    if (s.abs() < 1e-6).any():\n        raise ValueError\n').body[0]
+    got = [[pol for _, pol in _all_reductions(n.test)] for n in ast.walk(fx) if isinstance(n, ast.If)]
+    if got != [[True], [False], []]:
+        raise AnalysisError('C11.QUANT: fixture no longer classified (%r)' % got)
+    return res
+
+
 def _rules_core(repo, tier):
     from ..effects import rule_pure
     t = [(CV, q) for q in ('mat2SO3', 'mat2SE3', 'mat2Sim3', 'mat2RxSO3', 'from_matrix', 'euler2SO3', 'quat2unit')]
-    return rule_mp_pair(repo) + [rule_fwd(repo), rule_raise(repo), rule_disp(repo), rule_lt(repo), rule_gimbal(repo, tier), rule_degree(repo, tier), rule_tcol(repo, tier), rule_pivots(repo, tier),
+    return rule_mp_pair(repo) + [rule_fwd(repo), rule_raise(repo), rule_disp(repo), rule_lt(repo), rule_gimbal(repo, tier), rule_degree(repo, tier), rule_tcol(repo, tier), rule_pivots(repo, tier), rule_quant(repo, tier),
                                  rule_pure(repo, 'C11.PURE', 'the converters do not write into the matrix / angles they are given (also not on the rejecting '
                                            'path): converting the same tensor twice gives the same element', t)]
 
